@@ -1,7 +1,7 @@
 PROP = dict(level="exploration", parts=[
-    cxx("glob", "C18_glob", ninja=CSG, shards=(4, 12), timeout=dict(quick=120, thorough=900)),
-    cxx("range", "C18_range", ninja=TOOLS, shards=(2, 4), timeout=dict(quick=120, thorough=900)),
-    cxx("index", "C18_index", ninja=TOOLS, shards=(2, 4), timeout=dict(quick=120, thorough=900)),
+    cxx("glob", "C18_glob", ninja=CSG, shards=(4, 16), timeout=dict(quick=120, thorough=3600)),
+    cxx("range", "C18_range", ninja=TOOLS, shards=(2, 8), timeout=dict(quick=120, thorough=3600)),
+    cxx("index", "C18_index", ninja=TOOLS, shards=(2, 8), timeout=dict(quick=120, thorough=3600)),
 ])
 TEXT = dict(engine="bsx", design_ref="DESIGN.md §3 C18",
    technique="exhaustive enumeration of bounded pattern/string, range-expression and index-set spaces against a DP glob matcher, a strict reference range parser with direct enumeration (iteration under a step budget in a forked child) and set semantics",
